@@ -746,3 +746,101 @@ Proof.
     + exact H.
     + exact Hs.
 Qed.
+
+(* ---------- Rename ---------- *)
+Lemma patbelow_iff a k : patbelow a k = true <-> atbelow a k.
+Proof. unfold patbelow, atbelow, pbelow, below. rewrite orb_true_iff, beqb_eq. tauto. Qed.
+
+Lemma atbelow_rw_inv old new k : atbelow new k -> exists k0, atbelow old k0 /\ k = rw old new k0.
+Proof.
+  intros Hk. apply atbelow_suffix in Hk as (rest & Hr & ->). exists (old ++ rest). split; [apply atbelow_suffix; now exists rest|].
+  now rewrite rw_app.
+Qed.
+
+Lemma atbelow_prefix a k : atbelow a k -> prefixb a k = true.
+Proof. intros [->|H]; [apply prefixb_spec; exists []; now rewrite app_nil_r | now apply below_prefix]. Qed.
+
+Lemma sim_rename s t p q : Rsim s t -> wf_op s (Rename p q) = true -> sim_raw s t (Rename p q).
+Proof.
+  intros R Hwf. pose proof R as [W T N H Hs]. unfold sim_raw. cbn [m_step_raw p_step].
+  set (old := normalize_path p) in *. set (new := normalize_path q) in *.
+  destruct (lookup s old) as [f|] eqn:Hl.
+  2:{ destruct (rel_none s t old R Hl) as [Hp _]. rewrite Hp. unfold m_rename. fold old. rewrite Hl. split; [exact R | reflexivity]. }
+  destruct (rel_node s t old f R Hl) as (fn & fx & _ & Hp & _). rewrite Hp.
+  destruct (beqb old new) eqn:Eon.
+  { unfold m_rename. fold old new. rewrite Hl, Eon. split; [exact R | reflexivity]. }
+  apply beqb_neq in Eon.
+  destruct (rename_full s p q f W Hwf Hl Eon) as (Hres & W' & [Ma Msub Mgone Mrest]). fold old new in Msub, Mgone, Mrest.
+  destruct (rename_pre_facts s p q f W Hwf Hl Eon) as (Ho & Hn & Hor & Hnr & Hb1 & Hb2 & Hfree). fold old new in Ho, Hn, Hor, Hnr, Hb1, Hb2, Hfree.
+  rewrite Hres. cbn [fst snd mproj]. split; [|reflexivity].
+  set (s1 := fst (m_rename s p q)) in *.
+  set (phi := fun k => if patbelow old k then prewrite old new k else k).
+  set (l := alist_del new (ptree t)).
+  assert (Emap : map (fun kv : str * nat => if patbelow old (fst kv) then (prewrite old new (fst kv), snd kv) else kv) l = mapk phi l).
+  { unfold mapk. apply map_ext. intros [k v]. unfold phi. cbn [fst snd]. now destruct (patbelow old k). }
+  rewrite Emap.
+  (* keys of l *)
+  assert (Lk : forall k, alist_get k l = if beqb new k then None else plookup t k) by (intros k; unfold l, plookup; apply aget_del).
+  assert (Lkeys : forall k, In k (map fst l) -> k <> new /\ exists r, lookup s k = Some r).
+  { intros k Hin. apply aget_some_keys in Hin as [v Hv]. rewrite Lk in Hv. destruct (beqb new k) eqn:E; [discriminate|].
+    apply beqb_neq in E. split; [congruence|]. exists v. now rewrite T. }
+  assert (Lcanon : forall k, In k (map fst l) -> canon k).
+  { intros k Hin. destruct (Lkeys k Hin) as (_ & r & Hr). apply (g_canon _ _ _ _ W k r Hr). }
+  assert (Lfree : forall k, In k (map fst l) -> ~ atbelow new k).
+  { intros k Hin [E|E]; destruct (Lkeys k Hin) as (Hne & r & Hr); [congruence|]. rewrite (Hfree k r Hr) in E. discriminate. }
+  assert (Hdisj : forall x, canon x -> atbelow old x -> atbelow new x -> False) by (apply disjoint_trees; auto).
+  assert (Hphi_at : forall k, In k (map fst l) -> atbelow old k -> phi k = rw old new k /\ canon (phi k) /\ atbelow new (phi k)).
+  { intros k Hin Hat. unfold phi. rewrite (proj2 (patbelow_iff old k) Hat). split; [reflexivity|]. split; [|now apply rw_at].
+    destruct Hat as [->|Hb]; [now rewrite rw_self | apply (rw_canon old new k Ho Hn Hnr (Lcanon k Hin) Hb)]. }
+  assert (Hphi_out : forall k, ~ atbelow old k -> phi k = k).
+  { intros k Hat. unfold phi. destruct (patbelow old k) eqn:E; [apply patbelow_iff in E; contradiction | reflexivity]. }
+  assert (Hat_dec : forall k, atbelow old k \/ ~ atbelow old k).
+  { intros k. destruct (patbelow old k) eqn:E; [left; now apply patbelow_iff | right; intros Y; apply patbelow_iff in Y; congruence]. }
+  assert (Hinj : forall k1 k2, In k1 (map fst l) -> In k2 (map fst l) -> phi k1 = phi k2 -> k1 = k2).
+  { intros k1 k2 H1 H2 E. destruct (Hat_dec k1) as [A1|A1], (Hat_dec k2) as [A2|A2].
+    - destruct (Hphi_at k1 H1 A1) as (E1 & _), (Hphi_at k2 H2 A2) as (E2 & _). rewrite E1, E2 in E.
+      apply (rw_inj old new); auto using atbelow_prefix.
+    - exfalso. destruct (Hphi_at k1 H1 A1) as (_ & _ & X). rewrite E, (Hphi_out k2 A2) in X. now apply (Lfree k2 H2).
+    - exfalso. destruct (Hphi_at k2 H2 A2) as (_ & _ & X). rewrite <- E, (Hphi_out k1 A1) in X. now apply (Lfree k1 H1).
+    - now rewrite (Hphi_out k1 A1), (Hphi_out k2 A2) in E. }
+  assert (Pl : forall k, plookup (set_tree t (mapk phi l)) k = alist_get k (mapk phi l)) by reflexivity.
+  split.
+  - exact W'.
+  - intros k. rewrite Pl.
+    destruct (Hat_dec k) as [Ak|Ak].
+    + (* at or below old: gone on both sides *)
+      rewrite (Mgone k Ak). symmetry. apply aget_mapk_none. intros k0 H0 E.
+      destruct (Hat_dec k0) as [A0|A0].
+      * destruct (Hphi_at k0 H0 A0) as (_ & Hc0 & X). rewrite E in Hc0, X. now apply (Hdisj k).
+      * rewrite (Hphi_out k0 A0) in E. subst k0. contradiction.
+    + destruct (patbelow new k) eqn:En.
+      * (* at or below new: the image of a name at or below old *)
+        apply patbelow_iff in En. destruct (atbelow_rw_inv old new k En) as (k0 & A0 & ->).
+        rewrite (Msub k0 A0), T.
+        assert (Hk0new : k0 <> new). { intros ->. destruct A0 as [A0|A0]; congruence. }
+        destruct (in_dec str_eq_dec k0 (map fst l)) as [I|I].
+        -- destruct (Hphi_at k0 I A0) as (E0 & _). rewrite <- E0, (aget_mapk phi l Hinj k0 I), Lk.
+           assert (E : beqb new k0 = false) by (apply beqb_neq; congruence). now rewrite E.
+        -- assert (Hnone : plookup t k0 = None).
+           { apply aget_none_keys in I. rewrite Lk in I. assert (E : beqb new k0 = false) by (apply beqb_neq; congruence). now rewrite E in I. }
+           rewrite Hnone. symmetry. apply aget_mapk_none. intros k1 H1 E.
+           destruct (Hat_dec k1) as [A1|A1].
+           ++ destruct (Hphi_at k1 H1 A1) as (E1 & _). rewrite E1 in E. apply rw_inj in E; auto using atbelow_prefix. subst k1. contradiction.
+           ++ rewrite (Hphi_out k1 A1) in E. subst k1. apply (Lfree _ H1). now apply rw_at.
+      * (* elsewhere: unchanged *)
+        assert (An : ~ atbelow new k) by (intros Y; apply patbelow_iff in Y; congruence).
+        rewrite (Mrest k Ak An), T.
+        assert (Hknew : k <> new) by (intros ->; apply An; now left).
+        destruct (in_dec str_eq_dec k (map fst l)) as [I|I].
+        -- rewrite <- (Hphi_out k Ak) at 2. rewrite (aget_mapk phi l Hinj k I), Lk.
+           assert (E : beqb new k = false) by (apply beqb_neq; congruence). now rewrite E.
+        -- assert (Hnone : plookup t k = None).
+           { apply aget_none_keys in I. rewrite Lk in I. assert (E : beqb new k = false) by (apply beqb_neq; congruence). now rewrite E in I. }
+           rewrite Hnone. symmetry. apply aget_mapk_none. intros k1 H1 E.
+           destruct (Hat_dec k1) as [A1|A1].
+           ++ destruct (Hphi_at k1 H1 A1) as (_ & _ & X). rewrite E in X. contradiction.
+           ++ rewrite (Hphi_out k1 A1) in E. subst k1. contradiction.
+  - unfold set_tree. cbn [ptree]. apply nodup_mapk; [exact Hinj|]. unfold l. now apply nodup_del.
+  - eapply heap_rel_kept; [exact H | exact Ma | reflexivity].
+  - destruct Ma as (_ & Mh & _). now rewrite Mh.
+Qed.
